@@ -91,6 +91,11 @@ func (s *attackSim) run(keep bool) {
 		opts[i], opts[j] = opts[j], opts[i]
 	}
 	atk := vegeta.NewAttacker(opts...)
+	// an Attacker may be built well before it is used: the attack's clock starts with Attack, not with NewAttacker
+	if gap := []time.Duration{0, 0, time.Millisecond, 300 * time.Millisecond, time.Hour}[s.tape.Choose(5)]; gap > 0 {
+		w.Advance(gap)
+		s.stats["fault.gap-between-newattacker-and-attack"]++
+	}
 	pacer := &simPacer{real: cfg.Real}
 	w.Log.Addf("neutral options:%s", neutral)
 	w.Log.Addf("config W=%d M=%d du=%d name=%q pacer=%d stopAt=%d tgtErrAt=%d cons=%d stops=%d/%d arms=%v mediate=%v plans=%d",
